@@ -886,3 +886,39 @@ def throws_are_caught(run, handler, callees, rule='R4', instance='thrown-type-ca
             else:
                 run.unrecognised(rule, instance, '%s: throw %s' % (g.norm, ty), g.loc(t), 'thrown type %s is not in the tabled exception hierarchy' % ty)
     return n
+
+
+SORTED_ALGOS = ('std::binary_search', 'std::lower_bound', 'std::upper_bound', 'std::equal_range', 'std::merge', 'std::includes',
+                'std::set_union', 'std::set_intersection', 'std::set_difference', 'std::inplace_merge', 'std::unique')
+
+
+def sorted_precondition(run, fns, sorted_tables, rule='R5', instance='sorted-precondition'):
+    """Every call of a standard algorithm that REQUIRES a sorted range (binary_search, lower/upper_bound, equal_range,
+    ...) is applied to a container that the repository keeps sorted - a tabled one (reason given), or a local that a
+    dominating std::sort/stable_sort has just sorted.  On an unsorted range these algorithms return wrong answers for
+    some element orders and right ones for others (a `find` that works for ascending address lists only).
+    Returns the number of sites examined."""
+    n = 0
+    for fn in fns:
+        for c in fn.calls():
+            nm = (q.callee_name(c) or '').split('<')[0]
+            if nm not in SORTED_ALGOS or not c.get('args'):
+                continue
+            n += 1
+            run.touch(fn)
+            first = q.strip_casts(c['args'][0])
+            cont = None
+            if is_node(first) and first['k'] == 'call' and is_node(first.get('obj')):
+                cont = q.render(fn, first['obj'])
+            top = q.top_function(run.fx, fn)
+            key = '%s::%s' % (top.cls, cont) if cont and top.cls else cont
+            ok = key in sorted_tables or cont in sorted_tables
+            why_ok = sorted_tables.get(key) or sorted_tables.get(cont) or ''
+            if not ok and cont:
+                sorts = [s_ for s_ in fn.calls() if (q.callee_name(s_) or '').split('<')[0] in ('std::sort', 'std::stable_sort') and s_.get('args') and cont + '.begin()' == q.render(fn, q.strip_casts(s_['args'][0]))]
+                if sorts and q.any_precedes(fn, sorts, c):
+                    ok, why_ok = True, 'sorted by a dominating std::sort in the same function'
+            run.check(ok, rule, instance, '%s: %s(%s)' % (top.norm, nm, cont), fn.loc(c),
+                      '%s is applied to %s, which nothing keeps sorted (not a tabled sorted container, no dominating sort): the answer is right only for inputs that happen to be in ascending order' % (nm, cont or q.render(fn, first)[:40]),
+                      why_ok)
+    return n
